@@ -289,7 +289,7 @@ fn check(ctx: &Ctx, c: &Case) -> PResult {
 }
 
 pub fn props() -> Vec<(Box<dyn PropDyn>, u32, u32)> {
-    vec![(Box::new(Prop::new("group", case_strategy, check).shrink(120)), 1200, 24000)]
+    vec![(Box::new(Prop::new("group", case_strategy, check).shrink(120)), 5000, 60000)]
 }
 
 pub fn describe(ctx: &Ctx) {
